@@ -34,6 +34,7 @@ def analyse(program):
     unadopt = P.unadopt()
     closures = ClosureCache(P)
     sv = rules_struct.V()
+    unfollowed = []
     for fn in P.entries():
         kind = "api"
         if fn is drop:
@@ -68,6 +69,9 @@ def analyse(program):
         if (fn.f.get("impl_trait") in FWD_TRAITS or fn.f.get("impl_trait") in REF_TRAITS) and isf.get("adt") == RC:
             rules.append(Forward(fn, hb))
         eng = P.run(fn, rules)
+        for u in eng.unfollowed:
+            if u not in unfollowed:
+                unfollowed.append(u)
         res.entries.append({"entry": name, "path": fn.path, "blocks": len(g.blocks), "states": eng.stats["states"], "events": len(eng.event_index)})
         res.states += eng.stats["states"]
         res.events += len(eng.event_index)
@@ -76,6 +80,10 @@ def analyse(program):
             v = dict(v)
             v["config"] = P.config
             v["entry_short"] = name
+            # counter accesses that ran out of sight (raw pointer into a counter cell): nothing may be concluded from the
+            # *absence* of a counter update on this entry point
+            if eng.unfollowed and ("without" in v["key"] or "no-increment" in v["key"] or "no-decrement" in v["key"] or "not-followed" in v["key"]):
+                continue
             res.violations.append(v)
         for (rule, what, b) in eng.obligations:
             w = eng.where(b)
@@ -125,7 +133,7 @@ def analyse(program):
             res.obligations.add((rule, what, p[0], p[1], "%s:%s" % (t.get("file"), t.get("line"))))
         else:
             res.obligations.add((rule, what, str(where[0]), str(where[1]), ""))
-    res.inconclusive = []
+    res.inconclusive = ["%s, so no verdict can be given" % u for u in unfollowed]
     seen_ = set()
     for e, b, what in P.inliner.lazy_unexpanded:
         if what not in seen_:
